@@ -51,7 +51,7 @@ func (c14) Mandatory(tier string) []string {
 		}
 	}
 	return append(m, "control-position:first", "control-position:middle-or-last", "control-name:./control", "control-name:control", "extra-members", "via:Load", "via:LoadFile",
-		"reject:version-1.0", "reject:version-3.0", "reject:version-0.93", "reject:version-20.0", "reject:version-21.5", "reject:version-200.0", "reject:version-12.0", "reject:version-22", "reader:eof-with-last-member-byte", "control-tar:nested-control-first", "reject:no-debian-binary", "reject:no-control", "reject:no-data", "data:symlink", "data:dir", "data:empty-file", "repeat-loads-agree", "two-packages-open", "control:after-large-md5sums", "control:straddles-32KiB", "member-mtime>=2^31", "xz-dict-limit-lowered-and-restored")
+		"reject:version-1.0", "reject:version-3.0", "reject:version-0.93", "reject:version-20.0", "reject:version-21.5", "reject:version-200.0", "reject:version-12.0", "reject:version-22", "reader:eof-with-last-member-byte", "reader:one-header-read-fails-once", "via:LoadFile-symlink", "control-tar:nested-control-first", "reject:no-debian-binary", "reject:no-control", "reject:no-data", "data:symlink", "data:dir", "data:empty-file", "repeat-loads-agree", "two-packages-open", "control:after-large-md5sums", "control:straddles-32KiB", "member-mtime>=2^31", "xz-dict-limit-lowered-and-restored")
 }
 
 func codecName(e string) string {
@@ -117,6 +117,21 @@ type tarListing struct {
 	Size int64
 	Sum  string
 	Link string
+}
+
+// flakyReaderAt fails the first read that touches [lo,hi) with a non-EOF error, once.
+type flakyReaderAt struct {
+	in     io.ReaderAt
+	lo, hi int64
+	failed bool
+}
+
+func (f *flakyReaderAt) ReadAt(p []byte, off int64) (int, error) {
+	if !f.failed && off < f.hi && off+int64(len(p)) > f.lo {
+		f.failed = true
+		return 0, errInjectedRead
+	}
+	return f.in.ReadAt(p, off)
 }
 
 func listTar(tr *tar.Reader) ([]tarListing, error) {
@@ -304,6 +319,22 @@ func (p c14) run(c *core.C, t *core.T, cs c14Case) {
 	}
 	c.Cover("repeat-loads-agree")
 	c.Cover("via:Load")
+	// a source whose read of ONE member header fails once with an I/O error: Load must report it, or load the
+	// whole package - not hand out an index that silently lacks the members from there on
+	for hi, off := range model.HeaderOffsets(members) {
+		if hi >= len(members) {
+			break
+		}
+		fl := &flakyReaderAt{in: bytes.NewReader(raw), lo: off, hi: off + 60}
+		d, err := deb.Load(fl, "flaky.deb")
+		if err == nil {
+			if len(d.ArContent) != len(members) {
+				c.Failf("Load over a source whose read of member header %d failed once returned no error and an index of %d of %d members (%s)", hi, len(d.ArContent), len(members), memberNames(members))
+			}
+			d.Close()
+		}
+		c.Cover("reader:one-header-read-fails-once")
+	}
 	for _, e := range m.ControlFiles {
 		if e.Type == tar.TypeReg && (e.Name == "./control" || e.Name == "control") {
 			break
@@ -359,10 +390,29 @@ func (p c14) run(c *core.C, t *core.T, cs c14Case) {
 			c.Failf("LoadFile: Deb.Path = %q, want %q", d.Path, path)
 		}
 		c14CheckLoaded(c, "LoadFile", d, members, m, doc, wantSrc, true)
+		// both handles LoadFile hands out get closed, as callers do (defer closer(); defer d.Close())
 		if closer != nil {
 			closer()
 		}
+		d.Close()
 		c.Cover("via:LoadFile")
+	}
+	// the same file through a symbolic link
+	lp := filepath.Join(t.WorkDir, "c14-link.deb")
+	os.Remove(lp)
+	if os.Symlink(path, lp) == nil {
+		d, closer, err := deb.LoadFile(lp)
+		if err != nil {
+			c.Failf("LoadFile through a symbolic link failed on a well-formed package: %v", err)
+		} else {
+			c14CheckLoaded(c, "LoadFile(symlink)", d, members, m, doc, wantSrc, true)
+			d.Close()
+			if closer != nil {
+				closer()
+			}
+			c.Cover("via:LoadFile-symlink")
+		}
+		os.Remove(lp)
 	}
 	os.Remove(path)
 	c.Cover(fmt.Sprintf("codec:control=%s,data=%s", codecName(cs.CExt), codecName(cs.DExt)))
